@@ -240,6 +240,7 @@ type rcfg struct {
 	Sizes   []int `json:"sizes,omitempty"`   // cyclic Read buffer sizes
 	Src     []int `json:"src,omitempty"`     // fragmentation of the compressed source
 	EOFWith bool  `json:"eofwith,omitempty"` // the source returns its last bytes together with io.EOF
+	Seeker  bool  `json:"seeker,omitempty"`  // the source also implements io.Seeker (like bytes.Reader / os.File)
 }
 
 func drawRcfg(t *rapid.T, bs int) rcfg {
@@ -253,6 +254,7 @@ func drawRcfg(t *rapid.T, bs int) rcfg {
 		r.Src = drawChunkSchedule(t, bs, "rsrc")
 	}
 	r.EOFWith = rapid.IntRange(0, 3).Draw(t, "reofwith") == 0
+	r.Seeker = rapid.IntRange(0, 2).Draw(t, "rseeker") == 0
 	return r
 }
 
@@ -267,8 +269,13 @@ type readResult struct {
 
 // readAll decodes z as configured. A clean end of stream is reported as Err == nil.
 func readAll(z []byte, rc rcfg, handler func(int)) readResult {
-	src := &inst.Source{Data: z, Chunks: rc.Src, EOFWith: rc.EOFWith}
-	r := lz4.NewReader(src)
+	ss := &inst.SeekSource{Source: inst.Source{Data: z, Chunks: rc.Src, EOFWith: rc.EOFWith}}
+	src := &ss.Source
+	var rdr io.Reader = src
+	if rc.Seeker {
+		rdr = ss
+	}
+	r := lz4.NewReader(rdr)
 	opts := []lz4.Option{lz4.ConcurrencyOption(rc.Conc)}
 	if handler != nil {
 		opts = append(opts, lz4.OnBlockDoneOption(handler))
